@@ -322,9 +322,9 @@ def tables(doc):
     for s in sorted(strs):
         if not _ok_str(s):
             raise Outside('control character')
-        for i, rx in B['pats']:
-            if rx.search(s):
-                re_rows.append('(%d, %s, true)' % (i, coq_str(s)))
+        ids = [str(i) for i, rx in B['pats'] if rx.search(s)]
+        if ids:
+            re_rows.append('(%s, [%s])' % (coq_str(s), '; '.join(ids)))
     pp_rows = ['(%s, %s)' % (coq_str(s), obj_lit(p)) for s, p in sorted(pp.items())]
     fl_rows = []
     for s in sorted(strs):
@@ -344,8 +344,8 @@ def walk_expr(kind, doc):
     d = jv_top(doc)                     # first: fails fast on documents outside the model class
     ret, ppt, flt = tables(doc)
     if kind == 'wb':
-        return 'show (walk_wb (re_of_table %s) (pp_of_table %s) (fl_of_table %s) %s)' % (ret, ppt, flt, d)
-    return 'show (%s (re_of_table %s) (pp_of_table %s) %s)' % (WALK_FN[kind], ret, ppt, d)
+        return 'show (walk_wb (re_of_rows %s) (pp_of_table %s) (fl_of_table %s) %s)' % (ret, ppt, flt, d)
+    return 'show (%s (re_of_rows %s) (pp_of_table %s) %s)' % (WALK_FN[kind], ret, ppt, d)
 
 
 def norm_expr(kind, doc, expected):
@@ -777,6 +777,10 @@ ODD_NAMES = ['a-b', 'a b', '1', 'x' * 260, 'fail', 'noop', 'version', 1, True, N
              '550e8400-e29b-41d4-a716-446655440000', 't0 ', '"q"', 'é', 'on', 'null', '#c', 'a:b']
 
 
+def junk(rng):
+    return copy.deepcopy(rng.choice(JUNK))
+
+
 def paths(d, pre=()):
     out = [pre]
     if isinstance(d, dict):
@@ -804,7 +808,7 @@ def mutate(rng, d):
         op = rng.choice(['replace', 'replace', 'delete', 'addkey', 'addkey', 'rename', 'dupval', 'wraplist', 'str', 'breakexpr'])
         if not path:
             if op == 'replace' and rng.random() < 0.3:
-                return rng.choice(JUNK), ['root']
+                return junk(rng), ['root']
             op = 'addkey'
         tgt = get_path(d, path)
         ops.append(op)
@@ -812,18 +816,18 @@ def mutate(rng, d):
             if isinstance(tgt, dict):
                 k = rng.choice(KEYS)
                 try:
-                    tgt[k] = rng.choice(JUNK) if rng.random() < 0.6 else copy.deepcopy(get_path(d, rng.choice(ps)))
+                    tgt[k] = junk(rng) if rng.random() < 0.6 else copy.deepcopy(get_path(d, rng.choice(ps)))
                 except TypeError:
                     pass
             elif isinstance(tgt, list):
-                tgt.insert(rng.randrange(len(tgt) + 1), rng.choice(JUNK))
+                tgt.insert(rng.randrange(len(tgt) + 1), junk(rng))
             elif path:
-                get_path(d, path[:-1])[path[-1]] = rng.choice(JUNK)
+                get_path(d, path[:-1])[path[-1]] = junk(rng)
             continue
         parent = get_path(d, path[:-1])
         k = path[-1]
         if op == 'replace':
-            parent[k] = rng.choice(JUNK)
+            parent[k] = junk(rng)
         elif op == 'delete':
             del parent[k]
         elif op == 'rename' and isinstance(parent, dict):
